@@ -4,7 +4,7 @@ import ast
 from .core import AnalysisError, Finding
 from .astutil import unparse, dotted
 from .pathwalk import loop_paths, show, is_const, C
-from .layout import Sizes, LinS, account, pipeline
+from .layout import Sizes, LinS, account, pipeline, table_param
 from . import encprops
 
 LABEL_PASSES_EXPECTED = ['resolve_labels', 'transform_compressible', 'transform_pseudo_instructions', 'resolve_aligns']
@@ -52,6 +52,32 @@ def criteria_of_path(path):
     return None
 
 
+IN_ORDER_WRAPPERS = ('list', 'tuple', 'iter')
+
+
+def in_order_source(it):
+    """The expression a loop really walks, in order: X for `X`, `list(X)`, `tuple(X)`, `iter(X)`, `enumerate(X[, start])`."""
+    while isinstance(it, ast.Call) and isinstance(it.func, ast.Name) and it.args and not any(isinstance(a, ast.Starred) for a in it.args):
+        if it.func.id in IN_ORDER_WRAPPERS and len(it.args) == 1 and not it.keywords:
+            it = it.args[0]
+        elif it.func.id == 'enumerate' and len(it.args) <= 2:
+            it = it.args[0]
+        else:
+            break
+    return it
+
+
+def loop_item(loop):
+    """('item', name) of the variable that holds the element in `for x in X` / `for i, x in enumerate(X)`, else None."""
+    tgt, it = loop.target, loop.iter
+    if isinstance(tgt, ast.Name):
+        return ('item', tgt.id)
+    if (isinstance(tgt, (ast.Tuple, ast.List)) and len(tgt.elts) == 2 and isinstance(tgt.elts[1], ast.Name)
+            and isinstance(it, ast.Call) and isinstance(it.func, ast.Name) and it.func.id == 'enumerate'):
+        return ('item', tgt.elts[1].id)
+    return None
+
+
 class PassAnalysis:
     def __init__(self, facts, fname, incoming=None):
         self.facts = facts
@@ -67,7 +93,14 @@ class PassAnalysis:
         self.result = returned_list(self.loop_fn)
         if self.result is None:
             raise AnalysisError('{}: the list of items the pass returns is not a local name the analysis can follow'.format(fname))
-        self.item = ('item', self.loop.target.id) if isinstance(self.loop.target, ast.Name) else None
+        self.item = loop_item(self.loop)
+        if self.item is None:
+            raise AnalysisError('{}: the loop variable that holds the item ({}) is not understood'.format(fname, unparse(self.loop.target)))
+        # the parameter through which this function receives assemble's label table (read from the evaluated pipeline)
+        try:
+            self.labels_name = table_param(facts, self.loop_fn.name, 'labels') or 'labels'
+        except AnalysisError:
+            self.labels_name = 'labels'
         self.pos_var = self.find_position_var()
         self.mn_classes = mnemonic_classes(facts)
         self.rows = [r for r in (self.row(p) for p in self.paths) if r is not None]
@@ -128,15 +161,21 @@ class PassAnalysis:
         closures = local_closures(self.loop_fn)
         called = {n.func.id for n in ast.walk(self.loop) if isinstance(n, ast.Call) and isinstance(n.func, ast.Name) and n.func.id in closures}
         region = [self.loop] + [closures[c] for c in called]
-        for n in [x for r in region for x in ast.walk(r)]:
+        nodes = [x for r in region for x in ast.walk(r)]
+        for n in nodes:
             if isinstance(n, ast.AugAssign) and isinstance(n.op, ast.Add) and isinstance(n.target, ast.Name) and n.target.id in zero:
                 adv[n.target.id] = adv.get(n.target.id, 0) + (2 if 'size' in unparse(n.value) else 1)
+        # an offset is *used* while the items are walked (compared with label values, recorded as a label, handed to an evaluation);
+        # a counter that is only advanced there and read after the loop (statistics for a log line) is none
+        read = {n.id for n in nodes if isinstance(n, ast.Name) and isinstance(n.ctx, ast.Load)}
+        adv = {k: v for k, v in adv.items() if k in read}
+        self.pos_candidates = sorted(adv)
         if not adv:
             return None
         return max(adv, key=lambda k: adv[k])
 
     def row(self, path):
-        acc = account(path, self.result)
+        acc = account(path, self.result, self.labels_name)
         st = path
         # facts implied by a matched compression rule
         crit = criteria_of_path(path)
@@ -179,6 +218,15 @@ class PassAnalysis:
         foreign = []
         for recv, val, node, meth in acc.appended:
             if recv in (('lv', self.result), ('name', self.result)):
+                if meth == 'extend' and val is not None and val[0] in ('list', 'tuple') and not any(e[0] == 'star' for e in val[1]):
+                    # extend([a, b]) / += [a, b]: the elements written out, appended in order
+                    for e in val[1]:
+                        try:
+                            appended = appended + self.sizes.size(e, st)
+                        except AnalysisError as e2:
+                            appended = appended + LinS({('opaque', 'size(): ' + str(e2)[:100]): 1})
+                        app_values.append((e, node))
+                    continue
                 if meth == 'extend':
                     appended = appended + LinS({('size-of-list', val): 1})
                 else:
@@ -206,8 +254,10 @@ class PassAnalysis:
             d = self.sizes.lin(p['delta'], st).scale(p['sign'])
             delta = delta + d
             upd.append((u, d))
+        # writes to the label table that the accounting does not follow (the label delta of this path is then unknown)
+        unknown = [u['node'] for u, d in upd if d is None] + list(acc.label_other)
         return dict(path=path, acc=acc, consumed=consumed, appended=appended, app_values=app_values, advance=advance,
-                    delta=delta, updates=upd, crit=crit, foreign=foreign, unpinned=unpinned)
+                    delta=delta, updates=upd, crit=crit, foreign=foreign, unpinned=unpinned, label_unknown=unknown)
 
 
 def describe_row(r):
@@ -241,6 +291,11 @@ def opaque_atoms(facts, lin):
         if k == 'const':
             return
         if k == 'attr' and len(t) == 3:
+            if isinstance(t[1], tuple) and t[1] and t[1][0] == 'new':
+                # a field of a freshly built helper object that is not one of its constructor arguments (computed in __init__):
+                # what it holds is not followed
+                out.append(t)
+                return
             walk(t[1])
             return
         if k == 'call' and len(t) == 4 and t[1] == 'len' and len(t[2]) == 1:
@@ -259,6 +314,10 @@ def opaque_atoms(facts, lin):
             if t[2] in methods or t[2] not in BUILTIN_METHODS:
                 out.append(t)
                 return
+        elif k == 'size-of-list':
+            # the total size of a list of items that is not written out element by element: not comparable
+            out.append(t)
+            return
         elif k == 'size' and len(t) == 2:
             if not (isinstance(t[1], tuple) and t[1] and t[1][0] in ('item', 'attr', 'new', 'obj', 'lv')):
                 out.append(t)
@@ -291,6 +350,80 @@ def opaque_atoms(facts, lin):
     for key in lin.terms:
         walk(key)
     return out
+
+
+def zero_values(path):
+    """Symbolic values the path found to be zero / falsy: `if not x`, `if x == 0`, the else arm of `if x` / `if x != 0`."""
+    out = []
+    for t, pol, _ in path.conds:
+        if not isinstance(t, tuple) or not t:
+            continue
+        if t[0] == 'un' and t[1] == 'not':
+            t, pol = t[2], not pol
+        if t[0] == 'cmp' and t[1] in ('==', '!=') and (is_const(t[2]) or is_const(t[3])):
+            c, x = (t[2], t[3]) if is_const(t[2]) else (t[3], t[2])
+            if c[1] == 0 and not isinstance(c[1], bool) and pol == (t[1] == '=='):
+                out.append(x)
+        elif t[0] != 'cmp' and not pol:
+            out.append(t)
+    return out
+
+
+def multiple_of(residue, z):
+    """residue == k * z for some integer k (linear forms without constant part)."""
+    if residue.const != 0 or z.const != 0 or not z.terms or set(residue.terms) != set(z.terms):
+        return False
+    ratios = {residue.terms[k] / z.terms[k] for k in z.terms}
+    return len(ratios) == 1 and float(next(iter(ratios))).is_integer()
+
+
+def known_zero(pa, path, residue):
+    forms = []
+    for z in zero_values(path):
+        if z[0] != 'bin':
+            continue
+        try:
+            forms.append(pa.sizes.lin(z, path))
+        except AnalysisError:
+            continue
+    # a loop that ran zero times: its iterable is empty - with the helpers that produce the iterable followed
+    # (`for v in parse_values(item):` over a list that has one element per element of item.values)
+    for ev in path.events:
+        if ev[0] == 'loop0' and isinstance(ev[1], tuple):
+            try:
+                it = pa.sizes.resolve(ev[1], path)
+                if it != ev[1]:
+                    forms.append(pa.sizes.lin(('call', 'len', (it,), ()), path))
+            except AnalysisError:
+                continue
+    return any(not lz.is_zero() and multiple_of(residue, lz) for lz in forms)
+
+
+def table_known_empty(pa, path):
+    table = ('name', pa.labels_name)
+    return any(z == table or z == ('call', 'len', (table,), ()) for z in zero_values(path))
+
+
+def class_test(t):
+    """An isinstance test (possibly negated / combined): what it teaches is already in the path's class facts."""
+    if not isinstance(t, tuple) or not t:
+        return False
+    if t[0] == 'un' and t[1] == 'not':
+        return class_test(t[2])
+    if t[0] == 'bool':
+        return all(class_test(x) for x in t[2])
+    if t[0] == 'cmp' and t[1] in ('is', 'is not', '==', '!='):
+        # type(x) is C / x.__class__ is C
+        for a, b in ((t[2], t[3]), (t[3], t[2])):
+            if b[0] == 'name' and ((a[0] == 'call' and a[1] == 'type' and len(a[2]) == 1) or (a[0] == 'attr' and a[2] == '__class__')):
+                return True
+    return t[0] == 'call' and t[1] == 'isinstance'
+
+
+def contains_value(v, x):
+    if v == x:
+        return True
+    return isinstance(v, tuple) and any(contains_value(y, x) for y in v if isinstance(y, tuple))
 
 
 MUTABLE_MAKERS = ('bytearray', 'list', 'dict', 'set', 'collections.deque', 'deque', 'io.BytesIO', 'BytesIO')
@@ -359,14 +492,28 @@ def check_conservation(report, pa, rule, expect_label_writes):
         inst = '{} [{}]'.format(fname, (r['crit'][0] if r['crit'] else path.cond_text()[-70:]))
         report.count('pass paths accounted')
         node = (r['app_values'][0][1] if r['app_values'] else (path.end_node or pa.loop))
+        if r['label_unknown']:
+            n = r['label_unknown'][0]
+            report.undecided('{}: the label table is written at line {} in a form the layout rules do not follow ({{k: v - d for k, v in labels.items() '
+                             'if v > position}} and its equivalents): how far labels move on the path [{}] is not known'.format(
+                                 fname, getattr(n, 'lineno', '?'), path.cond_text()[-80:]))
+            continue
+        if pa.pos_var is None and r['updates']:
+            report.undecided('{}: labels are shifted but no local running offset (a counter set to 0 before the item loop and advanced inside it) is recognised'.format(fname))
+            continue
         total = r['appended'] + r['delta']
-        if not (total - r['consumed']).is_zero():
+        if not (total - r['consumed']).is_zero() and (known_zero(pa, path, total - r['consumed']) or (table_known_empty(pa, path) and r['app_values'])):
+            # the difference is an expression the path found to be zero (`if shrink:` ... else nothing to move), or the path knows
+            # that there is no label at all (`if labels:` around the shift): nothing can be off
+            report.ok(rule + '.conserve', inst + ': {} = {} + {} (difference known to be zero on this path)'.format(r['consumed'], r['appended'], r['delta']))
+        elif not (total - r['consumed']).is_zero():
             where = r['updates'][0][0]['node'] if r['updates'] else node
             hidden = opaque_atoms(pa.facts, total - r['consumed'])
             residue = total - r['consumed']
             if not hidden and any(isinstance(k, tuple) and k and k[0] == 'size' for k in residue.terms):
                 # the size of an item whose class the path does not pin: a disproof only if nothing on the path could have pinned
-                # it - a condition the walker did not see through (a helper object deciding the match) may well do so
+                # it - a condition the walker did not see through (a helper object deciding the match, a test on the object that
+                # is not an isinstance / type test) may well do so
                 class L:
                     terms = {t: 1 for t, pol, _ in path.conds if isinstance(t, tuple)}
                 hidden = opaque_atoms(pa.facts, L) or [t for t, pol, _ in path.conds if IS_havoc(t)]
@@ -375,6 +522,15 @@ def check_conservation(report, pa, rule, expect_label_writes):
             if not hidden and r['acc'].label_writes:
                 # the path writes into the label table in a way that is not read as a shift (labels[k] -= d in a loop, ...)
                 hidden = [('opaque', 'the write into the label table at line {}'.format(getattr(r['acc'].label_writes[0], 'lineno', '?')))]
+                if not hidden:
+                    objs = [k[1] for k in residue.terms if isinstance(k, tuple) and k and k[0] == 'size']
+                    hidden = [t for t, pol, _ in path.conds if not class_test(t) and any(contains_value(t, o) for o in objs)]
+            if not hidden:
+                # the path assumes that a loop over something that is not followed ran zero times (`for x in helper(item):` with the
+                # emitted bytes accumulated inside): what that says about the item is not known, so the difference is no disproof
+                class Z:
+                    terms = {ev[1]: 1 for ev in path.events if ev[0] == 'loop0' and isinstance(ev[1], tuple)}
+                hidden = opaque_atoms(pa.facts, Z)
             if hidden:
                 # a difference made of terms the size algebra does not see through is no disproof
                 report.undecided('{}: on the path [{}] the bytes an item contributes ({}) and the bytes emitted ({}) are not comparable: {} is not followed'.format(
@@ -390,7 +546,10 @@ def check_conservation(report, pa, rule, expect_label_writes):
         # position tracking
         has_pos = pa.pos_var is not None
         if has_pos:
-            if not (r['advance'] - r['appended']).is_zero():
+            if not (r['advance'] - r['appended']).is_zero() and len(getattr(pa, 'pos_candidates', ())) > 1:
+                report.undecided('{}: several counters ({}) are advanced and read in the item loop; which one is the running offset is not established'.format(
+                    fname, ', '.join(pa.pos_candidates)))
+            elif not (r['advance'] - r['appended']).is_zero():
                 report.fail(Finding(rule + '.position', fname, node,
                                     'on the path [{}] position advances by {} while {} bytes are emitted'.format(
                                         path.cond_text()[-120:], r['advance'], r['appended']), line=getattr(node, 'lineno', None)), instance=inst)
@@ -406,7 +565,7 @@ def check_conservation(report, pa, rule, expect_label_writes):
             problems = []
             if not p['key_ok']:
                 problems.append('keys are rewritten')
-            if not (p['iter'][0] == 'mcall' and p['iter'][1] == ('name', 'labels') and p['iter'][2] == 'items'):
+            if not (p['iter'][0] == 'mcall' and p['iter'][1] == ('name', pa.labels_name) and p['iter'][2] == 'items' and not p['iter'][3]):
                 problems.append('the shift does not range over all labels ({})'.format(show(p['iter'])))
             if d is not None and not d.is_zero():
                 if p['op'] != '>':
@@ -447,7 +606,14 @@ def check_order_only(report, pa, rule):
         report.ok(rule, '{}: result list built by append/extend only'.format(pa.fname))
     # iteration is over the input list itself
     it = pa.loop.iter
-    ok = isinstance(it, ast.Name) and it.id in [a.arg for a in pa.loop_fn.args.args]
+    src = in_order_source(it)
+    ok = isinstance(src, ast.Name) and src.id in [a.arg for a in pa.loop_fn.args.args]
+    if not ok:
+        reorders = [n for n in ast.walk(it) if isinstance(n, ast.Call) and dotted(n.func) in ('reversed', 'sorted', 'set', 'frozenset', 'random.sample', 'random.shuffle')] or \
+            [n for n in ast.walk(it) if isinstance(n, ast.Slice)]
+        if not reorders:
+            # neither the input list (possibly under list / iter / enumerate) nor a visible reordering of it: not understood
+            raise AnalysisError('{}: the item loop runs over `{}`, which is not followed back to the input list'.format(pa.fname, unparse(it)[:60]))
     report.check(ok, rule, '{}: iterates the input item list in order'.format(pa.fname),
                  lambda: Finding(rule, pa.fname, pa.loop.iter, 'the pass does not iterate its input list in order: for ... in {}'.format(unparse(it)),
                                  line=pa.loop.lineno))
